@@ -262,9 +262,19 @@ def m_vc_combine(it, x, sort=True, ascending=False, **groupby_kwargs):
 
 @model(methods.value_counts_aggregate)
 def m_vc_aggregate(it, x, total_length=None, sort=True, ascending=False, normalize=False, **groupby_kwargs):
+    out = _vc_sum(x)
     if normalize:
-        raise Unsupported("value_counts normalize")
-    return _vc_sum(x)
+        # `out /= total_length if total_length is not None else out.sum()` of the real function
+        from .core import lit_cell, cell_binop, count as count_
+
+        if total_length is None:
+            tot = Cell(Sum([If(v, c.num(), z3.IntVal(0)) for v, c in zip(out.valid, out.cells())]), F, "i")
+        elif isinstance(total_length, SymScalar):
+            tot = total_length.cell
+        else:
+            tot = lit_cell(total_length)
+        out = SymSeries("proportion", Col.from_cells([cell_binop("truediv", c, tot) for c in out.cells()], "f"), out.valid, out.index_, out.prov, None)
+    return out
 
 
 def _vc_sum(x):
